@@ -19,7 +19,13 @@ LEVEL.update({
  "C08": ("Termination mechanisms are decided structurally: the only entry to the timeout-less resolvers is through a constant <=60 s tokio timeout; the set of functions that can await network I/O without a timeout is exactly the six transport helpers and each is awaited under a constant <=5 s timeout; the limit/duplicate guards dominate every re-entrant call; push/pop is a balanced {0,1} typestate; Context's predicates are len==capacity / contains with capacity RECURSION_LIMIT; every resolver loop has a progress step; the resolver never fabricates a ResourceRecord. Wall-clock behaviour is declined.", "3/C08"),
  "C10": ("Chain order is decided at all concatenation sites (chain so far is the receiver, nested resolution appended), follow-up questions keep qtype/qclass and take the alias target, the shared cluster guards and push/pop typestate bound alias loops, follow_cnames returns None on a revisit, aliases are suppressed for CNAME/ANY questions. All alias graphs over all sources are declined.", "3/C10"),
 })
+LEVEL.update({
+ "C02": ("The lookup algorithm's shape is decided on every path: records leave the zone only through to_rr (owner/TTL/data fidelity), referral before CNAME before answer with their exact guards, the per-query-type answer table, child-then-wildcard-then-referral-then-name-error descent on a strictly shorter label slice, and no referral from the apex node. Which records a given zone holds is a run-time value and is declined.", "3/C02"),
+ "C12": ("Union-with-dedupe at the record-set level, a moved-before-dropped typestate showing no part of a merged-in zone is silently dropped, SOA value and apex SOA RRset updated together, last-writer-wins direction of the hosts maps, sorted directory listings and the load/merge order, plus the all-or-nothing loader flag, are decided on every path. Equality of answers between the merged zone and its parts is declined.", "3/C12"),
+})
 TECH = {
+ "C02": "custom MIR rules: closure-aware ORIGIN (map/collect/to_rr), guard sets per result variant, arm table, recursion-argument shape",
+ "C12": "custom MIR rules: moved-before-dropped typestate, paired-update (must-pass-through) rule, ORIGIN of insert arguments, ordering by reachability",
  "C01": "custom MIR rules: CUT-REACH between zone selection and cache reads, argument-role ORIGIN at merge sites, who-constructs provenance",
  "C08": "custom MIR rules: who-calls, least-fixpoint of un-timed I/O over the call graph, guard dominance, push/pop typestate dataflow, loop progress (cycle breaking)",
  "C10": "custom MIR rules: ORIGIN classification of append operands, typestate, guard dominance",
